@@ -2,7 +2,7 @@
    Only statements; proofs in Proofs/C07_McStats.v, model in Model/McStats.v.
    Models: Model/McStats.v (loop, statistics, 1-2 controls), Model/McCv.v (any number of controls), Model/McStdFull.v (both loop
    branches, spot statistics, n = 0 / 1, get_variance); proofs in Proofs/C07_McStats.v, C07_CvGeneral.v, C07_StdFull.v.
-   The model follows the repaired tree (fix-mc: dee7ba4 mc_stddev divides by sqrt(shape[0]);
+   The model follows the repaired tree (fix-mc: dee7ba4 mc_stddev divides by sqrt(shape[0]); 380d7c7 one error per component for n = 0, 1 (F-C07-6);
    f813372 every control is centred on its own price; fix-mc3 aaa3e1f scale-relative degenerate-control guard). *)
 From Coq Require Import List ZArith QArith Qabs Bool Lia Permutation.
 From RV Require Import Base.QB Model.McStats Model.McCv Proofs.C07_StatsLemmas Proofs.C07_McStats Proofs.C07_CvGeneral Model.McStdFull Proofs.C07_StdFull Proofs.C07_LstsqExists Model.McStdCv Proofs.C07_MpCv.
@@ -119,6 +119,25 @@ Theorem C07_lstsq_answer_exists :
     exists b w, length b = k /\ lstsq_spec n b w X Y.
 Proof. exact lstsq_spec_exists. Qed.
 
+(* the same in the form audit5a B10 asks for: the lstsq branch of code_b is inhabited whenever the guard does not fire (corollary) *)
+Theorem C07_lstsq_answer_exists_nondegenerate :
+  forall n X Y k, (0 < n)%nat -> any_degenerate n k X = false -> exists b w, length b = k /\ lstsq_spec n b w X Y.
+Proof. exact lstsq_answer_exists_nondegenerate. Qed.
+
+(* C07_cv_code_b_any_k WITHOUT its hypothesis `code_b n k b X Y` (discharged by C07_code_b_exists_unique): for every sample and k
+   there is a coefficient vector meeting the code's specification; it never has more variance than the raw sample and, guard not
+   firing, the least variance over all b', p'.  This is about the EXACT b (over Q).  numpy's float lstsq works on the rounded
+   correlation matrix with rcond = k*eps: on NEARLY collinear controls (relative determinant below ~1e-9) it drops a direction and
+   keeps variance the exact b would remove (audit5a: 4.405 of 4.412); `least variance` is then false of the returned b, `<= var Y`
+   still holds (oracle, every case).  The harness measures the excess over the exact minimum on every regular component. *)
+Theorem C07_cv_code_b_unconditional :
+  forall n k X Y, (0 < n)%nat ->
+    exists b, code_b n k b X Y
+      /\ (forall p, Cn n (cv_adj b p X Y) (cv_adj b p X Y) <= Cn n Y Y)
+      /\ (any_degenerate n k X = false ->
+          forall p b' p', length b' = k -> Cn n (cv_adj b p X Y) (cv_adj b p X Y) <= Cn n (cv_adj b' p' X Y) (cv_adj b' p' X Y)).
+Proof. exact cv_code_b_unconditional. Qed.
+
 (* hence: for EVERY sample and every k the specification of helper_compute_coefficients (guard -> 0, else lstsq) is met by
    exactly one coefficient vector -- "the b* of the code" is well defined without looking at a particular run *)
 Theorem C07_code_b_exists_unique :
@@ -160,7 +179,9 @@ Proof. split; [vm_compute; reflexivity|]. split.
    (Model/McStdFull.v) *)
 (* the callback of the multi-process branch (and the single-process loop, its instance): for ALL orders / chunkings / repetitions
    `its` of the delivered results, every assignment sigma of draws to iteration indices and every np.empty content, row it of
-   the payoff statistics is df*notional*payoff(path_(sigma it)), row it of the spot statistics (when on) is the spot of the same path *)
+   the payoff statistics is df*notional*payoff(path_(sigma it)), row it of the spot statistics (when on) is the spot of the same path.
+   (sigma is bookkeeping: the statement is the single-process one for the path function path o sigma; the content is the
+   independence of `its`.  Indices >= n are excluded by hypothesis -- numpy raises IndexError, the model's set_nth drops them.) *)
 Theorem C07_merge_any_order :
   forall payoff path df notional spot_on its sigma g1 g2 n,
     length g1 = n -> length g2 = n -> Forall (fun it => (it < n)%nat) its -> (forall k, (k < n)%nat -> In k its) ->
@@ -169,8 +190,13 @@ Theorem C07_merge_any_order :
     /\ st_spot s = (if spot_on then Some (map (fun it => [path (sigma it)]) (seq 0 n)) else None).
 Proof. exact merge_any_order. Qed.
 
-(* if the pool hands every draw to exactly one iteration index, the multi-process rows are a permutation of the single-process
-   rows (each path exactly once) and price(), mc_stddev()^2 are the same numbers, per component *)
+(* CONDITIONAL on the pool: IF sigma permutes 0..n-1 (every simulated path handed to exactly one iteration index) the multi-process
+   rows are a permutation of the single-process rows and price(), mc_stddev()^2 are the same numbers (over Q), per component.
+   The hypothesis is about `path`, the values of the simulated paths by draw number.  It is discharged (observed, by a draw-number
+   tag) ONLY on the harness's shared-counter scripted process.  For a real fixed-date process it does not describe the run: every
+   chunk of map_async re-uses the same pre-drawn variates (known finding F-C08-3 of C08; 64 paths, 2 workers: 8 distinct spot values
+   8 times each), so the pool's rows are NOT a permutation of a single-process run's rows and mc_stddev() is reported as for n
+   independent paths.  The rest is C07_statistics_permutation_invariant transported along C07_merge_any_order. *)
 Theorem C07_multiprocess_same_statistics :
   forall payoff path df notional spot_on its sigma g1 g2 g1' g2' n d j,
     length g1 = n -> length g2 = n -> length g1' = n -> length g2' = n ->
@@ -180,9 +206,8 @@ Theorem C07_multiprocess_same_statistics :
     let rows1 := st_pay (mc_engine payoff path df notional spot_on (seq 0 n) (fun i => i) g1' g2') in
     Permutation rows rows1
     /\ nth j (price_reported d rows) 0 == nth j (price_reported d rows1) 0
-    /\ (forall e e1, mc_stddev2_reported d rows = Some e -> mc_stddev2_reported d rows1 = Some e1 ->
-          (2 <= n)%nat -> nth j e 0 == nth j e1 0)
-    /\ (mc_stddev2_reported d rows = None <-> mc_stddev2_reported d rows1 = None).
+    /\ (forall e e1, mc_stddev2_reported d rows = Some e -> mc_stddev2_reported d rows1 = Some e1 -> nth j e 0 == nth j e1 0)
+    /\ (exists e e1, mc_stddev2_reported d rows = Some e /\ mc_stddev2_reported d rows1 = Some e1 /\ length e = d /\ length e1 = d).
 Proof. exact multiprocess_same_statistics. Qed.
 
 (* price, error^2 and variance are functions of each column as a multiset *)
@@ -193,21 +218,36 @@ Theorem C07_statistics_permutation_invariant :
     /\ nth j (map var_unbiased (columns d rows)) 0 == nth j (map var_unbiased (columns d rows')) 0.
 Proof. exact stats_perm. Qed.
 
-(* mc_paths = 0: price() is 0 per component, mc_stddev() has no value (AttributeError), get_variance() has none (nan);
-   mc_paths = 1: price() is the single discounted payoff, mc_stddev() and get_variance() are the single number 0 *)
+(* fewer than two paths, on the repaired tree (/repo 380d7c7, F-C07-6 fixed): mc_paths = 0: price() and mc_stddev() are 0 per component,
+   get_variance() has no value (nan); mc_paths = 1: price() is the single discounted payoff, mc_stddev() and get_variance() are 0 per
+   component.  The row and price clauses are theorems about the loop; the mc_stddev / get_variance clauses read the match arms of
+   mc_stddev2_reported / get_variance_reported (DEFINITIONAL: their content is the tie on the n = 0, 1 cases). *)
 Theorem C07_engine_small_n :
   forall payoff path df notional spot_on g1 g2 d j,
     (forall i, length (payoff (path i)) = d) -> (j < d)%nat ->
     (length g1 = 0%nat -> length g2 = 0%nat ->
        let rows := st_pay (mc_engine payoff path df notional spot_on (seq 0 0) (fun i => i) g1 g2) in
        rows = [] /\ nth j (price_reported d rows) 0 == 0 /\ length (price_reported d rows) = d
-       /\ mc_stddev2_reported d rows = None /\ get_variance_reported d rows = None)
+       /\ mc_stddev2_reported d rows = Some (repeat 0 d) /\ get_variance_reported d rows = None)
     /\ (length g1 = 1%nat -> length g2 = 1%nat ->
        let rows := st_pay (mc_engine payoff path df notional spot_on (seq 0 1) (fun i => i) g1 g2) in
        rows = [std_row payoff path df notional 0%nat]
        /\ nth j (price_reported d rows) 0 == df * notional * nth j (payoff (path 0%nat)) 0
-       /\ mc_stddev2_reported d rows = Some [0] /\ get_variance_reported d rows = Some [0]).
+       /\ mc_stddev2_reported d rows = Some (repeat 0 d) /\ get_variance_reported d rows = Some (repeat 0 d)).
 Proof. exact engine_small_n. Qed.
+
+(* one error per payoff component for EVERY number of paths, 0 and 1 included (small, by cases on the reported value) *)
+Theorem C07_error_one_per_component_any_n :
+  forall d rows, exists e, mc_stddev2_reported d rows = Some e /\ length e = d.
+Proof. exact stddev2_one_per_component. Qed.
+
+(* F-C07-6, FIXED: before the repair one path with d = 2 components gave ONE error number, no path gave none (AttributeError);
+   pre-repair definition mc_stddev2_reported_orig against the current one on the same inputs *)
+Example C07_error_per_component_before_repair :
+  (length (price_reported 2 [[2; 1]]) = 2%nat /\ mc_stddev2_reported_orig 2 [[2; 1]] = Some [0]
+     /\ mc_stddev2_reported 2 [[2; 1]] = Some [0; 0])
+  /\ (mc_stddev2_reported_orig 3 [] = None /\ length (price_reported 3 []) = 3%nat /\ mc_stddev2_reported 3 [] = Some [0; 0; 0]).
+Proof. exact error_per_component_before_repair. Qed.
 
 (* n >= 2: get_variance() is the unbiased sample variance per component and mc_stddev()^2 is get_variance() / n *)
 Theorem C07_get_variance_textbook :
@@ -243,8 +283,10 @@ Theorem C07_cv_tables_any_order :
     = (map (fun it => ycol (sigma it)) (seq 0 n), map (fun it => crow (sigma it)) (seq 0 n)).
 Proof. exact mpcv_merge_any_order. Qed.
 
-(* if the pool hands every draw to exactly one index, a coefficient vector meeting the code's specification on the multi-process
-   tables meets it on the single-process tables, and the control-variate price and sample variance are the same numbers *)
+(* CONDITIONAL on the pool exactly as C07_multiprocess_same_statistics (sigma permutes 0..n-1: true of the shared-counter scripted
+   process, where it is observed through a draw-number tag on every run; false of a real fixed-date process, F-C08-3): then a
+   coefficient vector meeting the code's specification on the multi-process tables meets it on the single-process tables, and the
+   control-variate price and sample variance are the same numbers (over Q; the harness compares floats at 1e-9) *)
 Theorem C07_cv_multiprocess_same :
   forall n, (0 < n)%nat -> forall sigma, Permutation (map sigma (seq 0 n)) (seq 0 n) ->
   forall X Y k b p, code_b n k b (permX sigma X) (permY sigma Y) ->
@@ -288,6 +330,8 @@ Print Assumptions C07_normal_equations_solvable.
 Print Assumptions C07_lstsq_spec_unique.
 Print Assumptions C07_cv_code_b_any_k.
 Print Assumptions C07_lstsq_answer_exists.
+Print Assumptions C07_lstsq_answer_exists_nondegenerate.
+Print Assumptions C07_cv_code_b_unconditional.
 Print Assumptions C07_code_b_exists_unique.
 Print Assumptions C07_code_b_check_sound.
 Print Assumptions C07_three_collinear_controls.
@@ -296,6 +340,8 @@ Print Assumptions C07_merge_any_order.
 Print Assumptions C07_multiprocess_same_statistics.
 Print Assumptions C07_statistics_permutation_invariant.
 Print Assumptions C07_engine_small_n.
+Print Assumptions C07_error_one_per_component_any_n.
+Print Assumptions C07_error_per_component_before_repair.
 Print Assumptions C07_get_variance_textbook.
 Print Assumptions C07_two_process_run.
 Print Assumptions C07_cv_tables_any_order.
